@@ -3,6 +3,7 @@ package main
 import (
 	"crypto/sha1"
 	"encoding/json"
+	"fmt"
 	"os"
 	"sort"
 )
@@ -57,35 +58,133 @@ func b2b(b bool) byte {
 	return 0
 }
 
+// image is the crash image of the swamp's directory: the .hyd file and the compaction's temporary file.
+// A file object (inode) keeps its bytes and the bytes that were there at its last completed fsync; names are
+// created, renamed and removed in log order (directory operations are taken as journaled).
+type inode struct {
+	data, synced []byte
+}
+
 type image struct {
-	exists bool
-	data   []byte
+	names  map[string]*inode // path -> file
+	opened map[string]*inode // path a writer opened/created -> its file (follows the file across a rename)
+	hyd    string
+}
+
+func newImage(hyd string) *image {
+	return &image{names: map[string]*inode{}, opened: map[string]*inode{}, hyd: hyd}
+}
+
+func (im *image) clone() *image {
+	c := newImage(im.hyd)
+	seen := map[*inode]*inode{}
+	cp := func(n *inode) *inode {
+		if n == nil {
+			return nil
+		}
+		if m, ok := seen[n]; ok {
+			return m
+		}
+		m := &inode{data: append([]byte(nil), n.data...), synced: append([]byte(nil), n.synced...)}
+		seen[n] = m
+		return m
+	}
+	for k, v := range im.names {
+		c.names[k] = cp(v)
+	}
+	for k, v := range im.opened {
+		c.opened[k] = cp(v)
+	}
+	return c
+}
+
+func (im *image) file(path string) *inode {
+	if n := im.opened[path]; n != nil {
+		return n
+	}
+	if n := im.names[path]; n != nil { // opened for append
+		im.opened[path] = n
+		return n
+	}
+	return nil
 }
 
 func (im *image) apply(op OpRec, nbytes int) {
 	switch op.Raw {
 	case "create":
-		im.exists, im.data = true, im.data[:0]
+		n := &inode{}
+		im.names[op.Path] = n
+		im.opened[op.Path] = n
 	case "write":
-		end := int(op.Off) + nbytes
-		for len(im.data) < end {
-			im.data = append(im.data, 0)
+		n := im.file(op.Path)
+		if n == nil || op.Off < 0 {
+			return
 		}
-		copy(im.data[op.Off:], op.Data[:nbytes])
+		end := int(op.Off) + nbytes
+		for len(n.data) < end {
+			n.data = append(n.data, 0)
+		}
+		copy(n.data[op.Off:], op.Data[:nbytes])
+	case "sync":
+		if n := im.file(op.Path); n != nil {
+			n.synced = append([]byte(nil), n.data...)
+		}
+	case "close":
+		delete(im.opened, op.Path)
+	case "rename": // the compaction's temporary file replaces the .hyd file
+		if n := im.names[op.Path]; n != nil {
+			im.names[im.hyd] = n
+			delete(im.names, op.Path)
+		}
+	case "remove":
+		delete(im.names, op.Path)
 	}
+}
+
+// materialise writes the files into dir; power = power loss: only what was fsynced survives in each file.
+func (im *image) materialise(dir string, power bool) {
+	for path, n := range im.names {
+		b := n.data
+		if power {
+			b = n.synced
+		}
+		os.WriteFile(dir+"/"+filepathBase(path), b, 0o644)
+	}
+}
+
+func (im *image) digest(power bool) [20]byte {
+	h := sha1.New()
+	names := make([]string, 0, len(im.names))
+	for p := range im.names {
+		names = append(names, p)
+	}
+	sort.Strings(names)
+	for _, p := range names {
+		b := im.names[p].data
+		if power {
+			b = im.names[p].synced
+		}
+		fmt.Fprintf(h, "%s:%d:", filepathBase(p), len(b))
+		h.Write(b)
+	}
+	var s [20]byte
+	copy(s[:], h.Sum(nil))
+	return s
+}
+
+func filepathBase(p string) string {
+	for i := len(p) - 1; i >= 0; i-- {
+		if p[i] == '/' {
+			return p[i+1:]
+		}
+	}
+	return p
 }
 
 func (x *Exec) runCrash(h *History) {
 	in := newInterner(h)
 	r := x.execute(h, in, true, nil, h.Steps)
 	defer os.RemoveAll(r.dir)
-	for _, op := range r.ops {
-		if op.Path != r.path { // compaction or other files: crash analysis does not apply to this history
-			x.writeHistory(h, r.events)
-			x.stat("crash_skipped", 1)
-			return
-		}
-	}
 	maxAll := x.cfg.MaxAll
 	if maxAll == 0 {
 		maxAll = 16
@@ -101,21 +200,16 @@ func (x *Exec) runCrash(h *History) {
 	kinds := map[key]string{}
 	// full = run the whole recovery script; otherwise only load the image (a load of a torn image is cheap,
 	// the load after the recovery is what reads garbage headers)
-	observe := func(im *image, full bool) string {
-		tag := []byte{0, b2b(full)}
-		if im.exists {
-			tag[0] = 1
-		}
-		sum := sha1.Sum(append(tag, im.data...))
+	observe := func(im *image, full, power bool) string {
+		sum := im.digest(power)
+		sum[0] ^= b2b(full)
 		if s, ok := cache[sum]; ok {
 			x.stat("cut_cache_hits", 1)
 			return s
 		}
 		dir := x.freshDir()
 		os.MkdirAll(dir, 0o755)
-		if im.exists {
-			os.WriteFile(dir+"/swamp.hyd", im.data, 0o644)
-		}
+		im.materialise(dir, power)
 		steps := rec
 		if !full {
 			steps = rec[:1]
@@ -149,25 +243,46 @@ func (x *Exec) runCrash(h *History) {
 		groups[k][obs]++
 		x.stat("cuts", 1)
 	}
-	im := &image{}
-	for _, op := range r.ops {
-		if op.Ev >= len(r.events) {
+	im := newImage(r.path)
+	// position of a cut inside the compaction (operations on the temporary file, rename): in the model it is
+	// the state after the last .hyd operation before it
+	lastEv, lastIdx := -1, 0
+	for i, op := range r.ops {
+		if op.Ev >= len(r.events) && op.Path == r.path {
 			break // the clean-up close after the history
 		}
+		if op.Path != r.path {
+			if lastEv >= 0 {
+				// prefix cut and power-loss cut (unsynced bytes of every file dropped) before this operation
+				add(key{lastEv, lastIdx, "none"}, "end", observe(im, true, false))
+				add(key{lastEv, lastIdx, "power"}, "end", observe(im, true, true))
+				x.stat("compaction_cuts", 2)
+			}
+			im.apply(op, len(op.Data))
+			if i+1 == len(r.ops) || r.ops[i+1].Path == r.path {
+				if lastEv >= 0 { // ... and after the last one
+					add(key{lastEv, lastIdx, "none"}, "end", observe(im, true, false))
+					add(key{lastEv, lastIdx, "power"}, "end", observe(im, true, true))
+					x.stat("compaction_cuts", 2)
+				}
+			}
+			continue
+		}
 		k := key{op.Ev, op.Idx, "none"}
-		add(k, op.Kind, observe(im, true))
+		add(k, op.Kind, observe(im, true, false))
 		if op.Raw == "write" {
 			offs := tearOffsets(len(op.Data), maxAll)
 			for i, b := range offs {
-				t := &image{exists: im.exists, data: append([]byte(nil), im.data...)}
+				t := im.clone()
 				t.apply(op, b)
 				full := i == 0 || i == len(offs)-1 || i == len(offs)/2 || len(op.Data) <= 16
-				add(key{op.Ev, op.Idx, "part"}, op.Kind, observe(t, full))
+				add(key{op.Ev, op.Idx, "part"}, op.Kind, observe(t, full, false))
 			}
 			im.apply(op, len(op.Data))
 		} else {
 			im.apply(op, 0)
 		}
+		lastEv, lastIdx = op.Ev, op.Idx+1
 	}
 	for _, k := range order {
 		obsList := make([]string, 0, len(groups[k]))
@@ -178,7 +293,10 @@ func (x *Exec) runCrash(h *History) {
 		for _, o := range obsList {
 			var cut Event
 			json.Unmarshal([]byte(o), &cut)
-			cut["op"], cut["idx"], cut["tear"], cut["n"] = kinds[k], k.idx, k.tear, groups[k][o]
+			cut["op"], cut["idx"], cut["tear"], cut["n"], cut["pl"] = kinds[k], k.idx, k.tear, groups[k][o], 0
+			if k.tear == "power" {
+				cut["tear"], cut["pl"] = "none", 1
+			}
 			ev := r.events[k.ev]
 			cs, _ := ev["cuts"].([]any)
 			ev["cuts"] = append(cs, cut)
